@@ -116,8 +116,16 @@ class Auth(object):
             raise ValueError("invalid password hash")
         kind = parts[0]
         version = parts[1]
-        params = base64.b64decode(parts[2])
-        data = base64.b64decode(parts[3])
+        # the two base64 fields must be exactly what hash_password wrote:
+        # the default decoder skips foreign characters and ignores anything
+        # after the padding, so a damaged string would still verify
+        try:
+            params = base64.b64decode(parts[2], validate=True)
+            data = base64.b64decode(parts[3], validate=True)
+        except ValueError:
+            raise ValueError("invalid password hash")
+        if base64.b64encode(params) != parts[2] or base64.b64encode(data) != parts[3]:
+            raise ValueError("invalid password hash")
 
         if kind != b'scrypt' or version != b"1":
             raise ValueError("invalid method")
@@ -136,7 +144,10 @@ class Auth(object):
         # the stored data must be exactly the salt followed by the digest.
         # otherwise edited length parameters could leave nothing to compare
         # (a zero length digest is equal to any other zero length digest)
-        if length < 16 or len(data) != salt_length + length:
+        # version 1 always stores a 16 byte salt and a 24 byte digest. a
+        # shorter digest is a prefix of the full one and must not verify
+        if salt_length != Auth.SALT_LENGTH or length != Auth.DIGEST_LENGTH \
+          or len(data) != salt_length + length:
             raise ValueError("invalid password hash")
 
         salt = data[:salt_length]
